@@ -19,6 +19,8 @@ from ..ckpt import NOVALUE, PS
 from .. import explore
 from ..explore import digest
 
+from ._common import process_comms_text_key as _text_key  # noqa: E402
+
 ID = 'C13'
 
 ARGS = ((), (1,), (1, 'x'))
@@ -131,7 +133,7 @@ def check_case(program: tuple, resumes: tuple, restore_at: tuple, medium: str, e
                         {'got': (proc.result(), proc.successful()), 'want': (want['result'], want['successful'])})
         elif want['state'] == PS.KILLED:
             msg = proc.killed_msg()
-            text = msg.get('message') if isinstance(msg, dict) else msg
+            text = msg.get(_text_key()) if isinstance(msg, dict) else msg
             if text != want['text']:
                 violate('kill-message', {'restored': restored}, {'got': repr(msg), 'want': want['text']})
     finally:
